@@ -51,12 +51,21 @@ KERNELS = [
     # schedule-independence of these loops is property C05's obligation over Gen/Prange.lean)
     ("utils.py", "deheap_sort", dict(indices="arr2I", distances="arr2P"), ("arr2I", "arr2P")),
     ("utils.py", "apply_graph_updates_low_memory", dict(current_graph=("arr2I", "arr2P", "arr2I"), updates="updLL", n_threads="Int"), "Int"),
+    # `in_graph` is a list of sets of ints, used only through `x in in_graph[r]` and `in_graph[r].add(x)`: a set is modelled by
+    # the list of the elements added to it (newest first; `add` conses, `in` is list membership), which is Model/Descent's InGraph
+    ("utils.py", "apply_graph_updates_high_memory", dict(current_graph=("arr2I", "arr2P", "arr2I"), updates="updLL", in_graph="setLI"), "Int"),
+    # the heap initialisers: 2-D loops feeding rows of given arrays to the flagged push
+    ("pynndescent_.py", "init_from_neighbor_graph", dict(heap=("arr2I", "arr2P", "arr2I"), indices="arr2I", distances="arr2P"), "Unit"),
+    # the search's visited table: one bit per candidate in a byte array (`>>`, `<<`, `&`, `|` on non-negative ints)
+    ("utils.py", "has_been_visited", dict(table="arrI", candidate="Int"), "Int"),
+    ("utils.py", "mark_visited", dict(table="arrI", candidate="Int"), "Unit"),
 ]
 
 LEAN_TY = {"P": "P", "Int": "Int", "arrP": "Array P", "arrI": "Array Int", "Unit": "Unit", "Bool": "Bool",
            "arr2P": "Array (Array P)", "arr2I": "Array (Array Int)",
+           "setI": "List Int", "setLI": "Array (List Int)",
            "upd": "(Int × Int × P)", "updL": "Array (Int × Int × P)", "updLL": "Array (Array (Int × Int × P))"}
-ELEM = {"arrP": "P", "arrI": "Int", "arr2P": "arrP", "arr2I": "arrI", "updLL": "updL", "updL": "upd"}
+ELEM = {"arrP": "P", "arrI": "Int", "arr2P": "arrP", "arr2I": "arrI", "updLL": "updL", "updL": "upd", "setLI": "setI"}
 MUTATING = {}     # translated kernel name -> Fn (for calls from later kernels)
 
 
@@ -71,7 +80,7 @@ abbrev at attribute axiom by calc class deriving do else end example export exte
 infix infixl infixr instance let macro match mutual namespace noncomputable notation open partial postfix prefix private
 protected return section set_option show structure suffices syntax termination_by decreasing_by then theorem universe unless
 using variable where with
-fuel rd wr wr2 wrPrefix ncols take zeros pure none some true false P Int Nat Array Option Unit Bool Type Prop Sort LoopOut
+fuel rd wr wr2 wrPrefix ncols take zeros shr shl band bor pure none some true false P Int Nat Array Option Unit Bool Type Prop Sort LoopOut
 next ret
 """.split())
 
@@ -117,6 +126,9 @@ def stored_names(stmts):
                 # `lst.append(v)` mutates `lst` (translated as `let lst := lst.push v`): it is a store, so the list is
                 # loop-carried; without this a list appended to inside a loop came back unchanged after the loop
                 out.append(n.func.value.id)
+            elif isinstance(n, ast.Call) and isinstance(n.func, ast.Attribute) and n.func.attr == "add" and isinstance(n.func.value, ast.Subscript) \
+                    and isinstance(n.func.value.value, ast.Name):
+                out.append(n.func.value.value.id)      # `S[r].add(x)` stores into the list of sets `S`
             elif isinstance(n, ast.Call) and isinstance(n.func, ast.Name) and n.func.id in MUTATING:
                 callee = MUTATING[n.func.id]
                 for prm, arg in zip(callee.ptypes, n.args):
@@ -219,7 +231,7 @@ class Fn:
                 flat[prm] = t
         fdef = preprocess(fdef, ptypes, flat)
         self.f, self.name, self.ptypes, self.ret = fdef, fdef.name, flat, ret
-        self.mut = [p for p in flat if flat[p].startswith("arr") and p in stored_names(fdef.body)]
+        self.mut = [p for p in flat if (flat[p].startswith("arr") or flat[p] == "setLI") and p in stored_names(fdef.body)]
         self.loops = []          # emitted loop definitions (text)
         self.nloop = 0
         self.ntmp = 0
@@ -318,6 +330,8 @@ class Fn:
             op = {ast.Add: "+", ast.Sub: "-", ast.Mult: "*"}.get(type(e.op))
             if op and t in ("Int", "P"): return "(%s %s %s)" % (a, op, b)
             if isinstance(e.op, ast.Mod) and t == "Int": return "(%s %% %s)" % (a, b)   # Int.emod = Python % for a positive modulus
+            bit = {ast.RShift: "shr", ast.LShift: "shl", ast.BitAnd: "band", ast.BitOr: "bor"}.get(type(e.op))
+            if bit and t == "Int": return "(← %s %s %s)" % (bit, a, b)    # defined for non-negative operands only (else `none`)
         if isinstance(e, ast.UnaryOp) and isinstance(e.op, ast.USub) and self.ty(e, env) in ("Int", "P"):
             return "(-%s)" % self.ex(e.operand, env)
         if isinstance(e, ast.Call) and isinstance(e.func, ast.Attribute) and e.func.attr == "zeros" and len(e.args) == 1:
@@ -346,6 +360,12 @@ class Fn:
         if isinstance(e, ast.Compare) and len(e.ops) == 1:
             a, b = e.left, e.comparators[0]
             ta, tb = self.ty(a, env), self.ty(b, env)
+            if isinstance(e.ops[0], (ast.In, ast.NotIn)):
+                if ta != "Int" or tb != "setI":
+                    raise Unsupported("membership test " + ast.unparse(e))
+                c = "(%s).contains %s = true" % (self.ex(b, env), self.ex(a, env))
+                yes, no = (then, els) if isinstance(e.ops[0], ast.In) else (els, then)
+                return [ind + "if %s then" % c] + yes(ind + "  ") + [ind + "else"] + no(ind + "  ")
             zero = lambda x: isinstance(x, ast.Constant) and not isinstance(x.value, bool) and x.value == 0
             if ta == "P" and zero(b): b, tb = ast.Constant(value=0.0), "P"
             if tb == "P" and zero(a): a, ta = ast.Constant(value=0.0), "P"
@@ -380,6 +400,14 @@ class Fn:
             if not at.startswith("arr") or self.ty(s.value.args[0], env) != ("P" if at == "arrP" else "Int"):
                 raise Unsupported("append " + ast.unparse(s))
             return [ind + "let %s := %s.push %s" % (a, a, self.ex(s.value.args[0], env))] + self.block(rest, env, ctx, ind)
+        if isinstance(s, ast.Expr) and isinstance(s.value, ast.Call) and isinstance(s.value.func, ast.Attribute) and s.value.func.attr == "add" \
+                and isinstance(s.value.func.value, ast.Subscript) and isinstance(s.value.func.value.value, ast.Name) \
+                and not isinstance(s.value.func.value.slice, (ast.Slice, ast.Tuple)) and len(s.value.args) == 1 and not s.value.keywords:
+            tgt = s.value.func.value
+            if self.ty(tgt.value, env) != "setLI" or self.ty(s.value.args[0], env) != "Int" or self.ty(tgt.slice, env) != "Int":
+                raise Unsupported("set add " + ast.unparse(s))
+            S, r, x = tgt.value.id, self.ex(tgt.slice, env), self.ex(s.value.args[0], env)
+            return [ind + "let %s ← wr %s %s (%s :: (← rd %s %s))" % (S, S, r, x, S, r)] + self.block(rest, env, ctx, ind)
         if isinstance(s, ast.AugAssign):
             s = ast.Assign(targets=[s.target], value=ast.BinOp(left=self.as_load(s.target), op=s.op, right=s.value))
         if isinstance(s, ast.Expr) and isinstance(s.value, ast.Call) and isinstance(s.value.func, ast.Name) and s.value.func.id in MUTATING:
@@ -610,6 +638,12 @@ inductive LoopOut (σ ρ : Type) where
   if 0 ≤ j ∧ j.toNat ≤ row.size ∧ pre.size = j.toNat then wr a i (pre ++ row.extract j.toNat row.size) else none
 /-- `A.shape[1]` of a rectangular 2-D array (0 when there are no rows) -/
 @[inline] def ncols {{α : Type}} (a : Array (Array α)) : Nat := match a[0]? with | some r => r.size | none => 0
+/-- `a >> b`, `a << b`, `a & b`, `a | b` on non-negative ints (through `Nat`); `none` for a negative operand (two's
+complement widths are not modelled) -/
+@[inline] def shr (a b : Int) : Option Int := if 0 ≤ a ∧ 0 ≤ b then some ((a.toNat >>> b.toNat : Nat) : Int) else none
+@[inline] def shl (a b : Int) : Option Int := if 0 ≤ a ∧ 0 ≤ b then some ((a.toNat <<< b.toNat : Nat) : Int) else none
+@[inline] def band (a b : Int) : Option Int := if 0 ≤ a ∧ 0 ≤ b then some ((a.toNat &&& b.toNat : Nat) : Int) else none
+@[inline] def bor (a b : Int) : Option Int := if 0 ≤ a ∧ 0 ≤ b then some ((a.toNat ||| b.toNat : Nat) : Int) else none
 /-- `np.zeros(n)` -/
 @[inline] def zeros {{α : Type}} [OfNat α 0] (n : Int) : Array α := Array.replicate n.toNat 0
 
@@ -640,7 +674,10 @@ STUB_MUT = {"simple_heap_push": ["priorities", "indices"], "checked_heap_push": 
             "checked_flagged_heap_push": ["priorities", "indices", "flags"], "siftdown": ["heap1", "heap2"],
             "fast_intersection_size": [], "sparse_sum": [], "sparse_mul": [], "sparse_dot_product": [],
             "deheap_sort": ["indices", "distances"],
-            "apply_graph_updates_low_memory": ["current_graph_0", "current_graph_1", "current_graph_2"]}
+            "apply_graph_updates_low_memory": ["current_graph_0", "current_graph_1", "current_graph_2"],
+            "apply_graph_updates_high_memory": ["current_graph_0", "current_graph_1", "current_graph_2", "in_graph"],
+            "init_from_neighbor_graph": ["heap_0", "heap_1", "heap_2"],
+            "has_been_visited": [], "mark_visited": ["table"]}
 
 
 def find_def(tree, name):
